@@ -61,6 +61,30 @@ COLLIDE = [
     [True, 1.0, decimal.Decimal("1")], [False, 0.0, decimal.Decimal("0")], [2.5, decimal.Decimal("2.5")], [True, decimal.Decimal("1.0")],
     [1, 1.0], [1, True], [0, False], [7, decimal.Decimal("7")], ["1", 1], ["TRUE", True],
 ]
+# placeholders inside the functions and constructs that fakesnow rewrites: ({n} marks parameter n)
+FUNCTIONS = [
+    ("DATEADD", "SELECT DATEADD(day, {0}, {1}::DATE)", [3, "2024-01-30"]),
+    ("DATEDIFF", "SELECT DATEDIFF(day, {0}::DATE, {1}::DATE)", ["2024-01-01", "2024-01-05"]),
+    ("REGEXP_SUBSTR", "SELECT REGEXP_SUBSTR({0}, {1})", ["ab12cd", "[0-9]+"]),
+    ("REGEXP_REPLACE", "SELECT REGEXP_REPLACE({0}, {1}, {2})", ["a-b-c", "-", "+"]),
+    ("TO_TIMESTAMP", "SELECT TO_TIMESTAMP({0})", ["2024-01-02 03:04:05"]),
+    ("TO_DATE", "SELECT TO_DATE({0})", ["2024-01-02"]),
+    ("TO_DECIMAL", "SELECT TO_DECIMAL({0}, 10, 2)", ["12.345"]),
+    ("TRIM", "SELECT TRIM({0}, {1})", ["xxaxx", "x"]),
+    ("SPLIT", "SELECT SPLIT({0}, {1})", ["a,b,c", ","]),
+    ("SHA2", "SELECT SHA2({0})", ["it's"]),
+    ("EQUAL_NULL", "SELECT EQUAL_NULL({0}, {1})", ["a", "a"]),
+    ("ZEROIFNULL", "SELECT ZEROIFNULL({0})", [5]),
+    ("DIV0", "SELECT DIV0({0}, {1})", [6, 3]),
+    ("IFF", "SELECT IFF({0} = {1}, {2}, 'n')", [1, 1, "y%"]),
+    ("COALESCE", "SELECT COALESCE({0}, {1})", [None, "fallback"]),
+    ("ARRAY_SIZE", "SELECT ARRAY_SIZE(PARSE_JSON({0}))", ["[1, 2, 3]"]),
+    ("JSON_PATH", "SELECT PARSE_JSON({0}):a::INT", ['{"a": 7}']),
+    ("IDENTIFIER", "SELECT COUNT(*) FROM IDENTIFIER({0})", ["DECOY"]),
+    ("CASE", "SELECT CASE WHEN {0} > {1} THEN {2} ELSE {3} END", [2, 1, "big", "small"]),
+    ("BETWEEN", "SELECT ID FROM DECOY WHERE ID BETWEEN {0} AND {1} ORDER BY ID", [2, 4]),
+    ("ORDER-LIMIT", "SELECT ID FROM DECOY WHERE S <> {0} ORDER BY ID LIMIT {1} OFFSET {2}", ["zz", 3, 1]),
+]
 DECOYS = ["plain", "it's", "100%", "%s", "$v1", "a;b", "--", "héllo", "", "x", "\\", "a\\'b", "line1\nline2", "?"]
 
 
@@ -87,6 +111,9 @@ def gen_cases(tier: str, seed: int):
             grp = r.choice(COLLIDE)
             a, b = r.sample(grp, 2)
             yield core.jsonable({"kind": "collide", "style": style, "first": a, "then": b, "how": r.choice(["same_stmt", "next_stmt", "other_conn"])})
+            continue
+        if x < 0.26 and x >= 0.22:
+            yield {"kind": "in_function", "style": style, "fn": r.randrange(len(FUNCTIONS))}
             continue
         if x < 0.22:
             t, v = r.choice(TYPED) if r.random() < 0.5 else ("S", _rand_string(r))
@@ -187,6 +214,8 @@ def run_case(case: dict, env: core.Env) -> None:
         return _run_paramstyle(case, env)
     if case["kind"] == "collide":
         return _run_collide(case, env)
+    if case["kind"] == "in_function":
+        return _run_in_function(case, env)
     if case["kind"] == "dict_reuse":
         return _run_dict_reuse(case, env)
     style, pos, t, v, v2 = case["style"], case["pos"], case["type"], case["val"], case["val2"]
@@ -417,6 +446,32 @@ def _run_executemany(case: dict, env: core.Env) -> None:
         env.witness(f"C08/executemany/wrong-rows/{style}", f"{dict(a)} expected {dict(want)}")
     if len(case["vals"]) >= 2:
         env.nontrivial(("em", style, case["vals"]))
+
+
+def _run_in_function(case: dict, env: core.Env) -> None:
+    """Parameters inside rewritten functions: the same result as with the values written as literals."""
+    style = case["style"]
+    name, tmpl, vals = FUNCTIONS[case["fn"]]
+    fs, conn, tw = _state[style]
+    psql = tmpl.format(*[ph(style, k) for k in range(len(vals))])
+    lsql = tmpl.format(*[qlit(v) for v in vals])
+    if style != "qmark":
+        lsql_run = lsql
+    else:
+        lsql_run = lsql
+    env.count("cmp_twin_rows")
+    env.cover("in_function", f"{name}/{style}")
+    tout = core.run_stmt(tw.cursor(), lsql_run)
+    if not tout["ok"]:
+        env.count("twin_rejected")
+        return
+    out = core.run_stmt(conn.cursor(), psql, bind(style, vals))
+    binding = "server-side" if style == "qmark" else "client-side"
+    if not out["ok"]:
+        env.witness(f"C08/in-function/{name}/{binding}/rejected/{out['exc']['cls']}", f"{psql} {vals!r}: {out['exc']['msg'][:200]} (as literals: {tout['rows']})")
+    elif [tuple(x) for x in out["rows"]] != [tuple(x) for x in tout["rows"]]:
+        env.witness(f"C08/in-function/{name}/{binding}/differs-from-literals", f"{psql} {vals!r} -> {out['rows']} but {lsql} -> {tout['rows']}")
+    env.nontrivial(("in_function", name, style))
 
 
 def _kind_of(v: Any) -> str:
